@@ -104,7 +104,7 @@ def calm_cases(rng, tier, classes, per_q, per_t, hist='short', want_ref=False, o
             if cls == 'GenEigsComplexShiftSolver' and h % 3 == 1:
                 # complex shifts whose disc |lambda - Re sigma| < |Im sigma| contains wanted eigenvalues (the inner root of the back-transformation is the right one)
                 sig = rng.choice([(1.1, 2.5), (3.1, 0.6), (1.1, -2.2), (2.6, 1.5)]); gfam = 'gnormal'; sel = 0; ncv = max(ncv, min(n, 2 * nev + 6))
-            if cls in ('SymEigsSolver', 'HermEigsSolver') and h % 8 == 5:
+            if cls in ('SymEigsSolver', 'HermEigsSolver') and h % 8 == 5 and not only_full:      # (not for C04: a multiple eigenvalue is found once, finding F8's mechanism)
                 # operators that act as a multiple of the identity on the start vector: the very first residual is rounding noise (init()'s special branch),
                 # every step is a breakdown; rules for which a spurious zero Ritz value would be among the wanted ones
                 fam = rng.choice(['identity', 'repeated']); scale = 1.0; start = 'I'; sel = rng.choice([4, 7, 8]); srt = rng.choice(sorts)
